@@ -1137,3 +1137,21 @@ func DeepCount(p *Prog, f *ssa.Function, pred func(ssa.Instruction) bool, skip f
 	}
 	return PathCount(f, weight(nil), skip)
 }
+
+// LiteralField returns the value stored into the named field of the composite literal v was loaded from.
+func LiteralField(v ssa.Value, name string) ssa.Value {
+	t := v.Type()
+	if pt, ok := t.Underlying().(*types.Pointer); ok {
+		t = pt.Elem()
+	}
+	st, ok := t.Underlying().(*types.Struct)
+	if !ok {
+		return nil
+	}
+	for i := 0; i < st.NumFields(); i++ {
+		if st.Field(i).Name() == name {
+			return literalField(v, i)
+		}
+	}
+	return nil
+}
